@@ -117,3 +117,49 @@ package storage
 //@   -- cur_hashes[j - D] of the current window explicitly so that the solver instantiates the closure's clause there
 //@   hint after Update [batch] let D == len(hashes) - len(cur_hashes) in callresult == nil ==> forall j int :: {hashes[j]} D <= j && j < len(hashes) && j - D <= 100 ==>
 //@       DbBody(*s.cacheDB, cur_hashes[j - D]) == 0 && !DbMarked(*s.cacheDB, cur_hashes[j - D])
+
+//@ -- ═════════ retrieval ═════════
+//@ -- Representation invariants of the cache DB (root preconditions of the retrieval; established by cacheQueueTransaction / cacheStoreTransaction,
+//@ -- the only writers of these prefixes -- [queued]/[body-hash] above):
+//@ --   QueueOK  every entry whose key starts with CACHETRANSACTIONQUEUE is a scheduling record QUEUE|be64(ts)|hash
+//@ --   BodyOK   the body stored under PAYLOAD|h is (the encoding of) a transaction whose payload hash is h
+//@ spec QueueOK(t badger.Txn) bool = forall k mathint :: {badger.kvget(t, k)} badger.kvget(t, k) != 0 && badger.keypfx(k, strkey(cachePrefixTransactionQueue)) == 0 ==> IsQueueKey(k)
+//@ spec BodyOK(t badger.Txn) bool = forall h crypto.Hash :: {badger.kvget(t, PK(h))} badger.kvget(t, PK(h)) != 0 ==> common.TxHashOfVal(badger.kvget(t, PK(h))) == h
+//@ -- THash(v): the payload hash of (the encoding) the returned object v was decoded from
+//@ spec THash(v *common.VersionedTransaction) crypto.Hash = common.TxHashOfVal(common.TxSrc(v))
+//@ -- Vis(it, c, k): k is a scheduling record the scan has passed (present in the iterator's snapshot, strictly before the cursor c; c == 0: scan finished)
+//@ spec Vis(it *badger.Iterator, c mathint, k mathint) bool = IsQueueKey(k) && badger.itget(it, k) != 0 && (c == 0 || badger.keylt(k, c))
+
+//@ -- The closure run by CacheRetrieveTransactions inside ONE badger Update. No `modifies` clause: it writes the captured result variable
+//@ -- txs besides *txn (the inferred write set is used at the call site). All clauses are about a successful run (err == nil); on an error
+//@ -- Update rolls the transaction back and the caller (kernel/queue.go) drops the returned slice.
+//@ func (s *BadgerStore) CacheRetrieveTransactions$1
+//@   property C23
+//@   mode append-back -- the existential witnesses of [covered]/[filter] are elements of `processed` before the two appends of an iteration
+//@   requires txn != nil && iscell(txn) && s != nil && len(txs) == 0
+//@   requires [queue-ok] QueueOK(*txn)
+//@   requires [body-ok] BodyOK(*txn)
+//@   ensures [limit] len(txs) <= limit || len(txs) == 0
+//@   ensures [bodies] err == nil ==> forall i int :: {txs[i]} 0 <= i && i < len(txs) ==> let T == THash(txs[i]) in txs[i] != nil && common.TxSrc(txs[i]) == old(Body(*txn, T)) && common.TxSrc(txs[i]) != 0
+//@   ensures [distinct] err == nil ==> forall i, j int :: {txs[i], txs[j]} 0 <= i && i < j && j < len(txs) ==> THash(txs[i]) != THash(txs[j])
+//@   ensures [consumed] err == nil ==> forall i int :: {txs[i]} 0 <= i && i < len(txs) ==> let T == THash(txs[i]) in exists ts mathint :: {QueueKeyId(ts, kvval(T))} 0 <= ts && ts < 18446744073709551616 &&
+//@       old(badger.kvget(*txn, QK(ts, T))) != 0 && badger.kvget(*txn, QK(ts, T)) == 0
+//@   ensures [requeue-possible] err == nil ==> forall i int :: {txs[i]} 0 <= i && i < len(txs) ==> !Marked(*txn, THash(txs[i]))
+//@   ensures [body-kept] err == nil ==> forall k mathint :: {badger.kvget(*txn, k)} keykind(k) != 10 && keykind(k) != 11 ==> badger.kvget(*txn, k) == old(badger.kvget(*txn, k))
+//@   ensures [only-deleted] err == nil ==> forall k mathint :: {badger.kvget(*txn, k)} badger.kvget(*txn, k) == old(badger.kvget(*txn, k)) || badger.kvget(*txn, k) == 0
+//@   ensures [pairs] err == nil ==> forall k mathint :: {badger.kvget(*txn, k)} keykind(k) == 10 && old(badger.kvget(*txn, k)) != 0 && badger.kvget(*txn, k) == 0 ==> badger.kvget(*txn, OrderKeyId(keyhid(k))) == 0
+//@   loop 0 invariant [state] *txn == old(*txn) && filter != nil && (len(txs) <= limit || len(txs) == 0)
+//@   loop 0 invariant [cursor] badger.itkey(*it) != 0 ==> IsQueueKey(badger.itkey(*it)) && badger.itget(it, badger.itkey(*it)) != 0
+//@   -- `processed` lists scheduling records the scan has passed and ORDER markers, in blocks that are not the local array `hash`
+//@   loop 0 invariant [kinds] forall m int :: {processed[m]} 0 <= m && m < len(processed) ==> arr(processed[m]) != &hash && (keykind(kvkey(processed[m])) == 10 || keykind(kvkey(processed[m])) == 11) &&
+//@       (keykind(kvkey(processed[m])) == 10 ==> IsQueueKey(kvkey(processed[m])) && (badger.itkey(*it) == 0 || badger.keylt(kvkey(processed[m]), badger.itkey(*it))))
+//@   -- every scheduling record the scan has passed is listed, and so is the marker of its hash
+//@   loop 0 invariant [covered-q] forall k mathint :: {badger.itget(it, k)} Vis(it, badger.itkey(*it), k) ==> exists m int :: {processed[m]} 0 <= m && m < len(processed) && kvkey(processed[m]) == k
+//@   loop 0 invariant [covered-o] forall k mathint :: {badger.itget(it, k)} Vis(it, badger.itkey(*it), k) ==> exists m int :: {processed[m]} 0 <= m && m < len(processed) && kvkey(processed[m]) == OrderKeyId(keyhid(k))
+//@   -- a hash is in the duplicate filter only if a scheduling record of it has been passed
+//@   loop 0 invariant [filter] forall h crypto.Hash :: {filter[h]} has(filter, h) && filter[h] ==> exists ts mathint :: {QueueKeyId(ts, kvval(h))} 0 <= ts && ts < 18446744073709551616 && Vis(it, badger.itkey(*it), QK(ts, h))
+//@   loop 0 invariant [seen] forall i int :: {txs[i]} 0 <= i && i < len(txs) ==> txs[i] != nil && has(filter, THash(txs[i])) && filter[THash(txs[i])]
+//@   loop 0 invariant [bodies] forall i int :: {txs[i]} 0 <= i && i < len(txs) ==> common.TxSrc(txs[i]) == Body(*txn, THash(txs[i])) && common.TxSrc(txs[i]) != 0
+//@   loop 0 invariant [distinct] forall i, j int :: {txs[i], txs[j]} 0 <= i && i < j && j < len(txs) ==> THash(txs[i]) != THash(txs[j])
+//@   loop 1 invariant [deleted] forall m int :: {processed[m]} 0 <= m && m <= rangeindex ==> badger.kvget(*txn, kvkey(processed[m])) == 0
+//@   loop 1 invariant [frame] forall k mathint :: {badger.kvget(*txn, k)} badger.kvget(*txn, k) == old(badger.kvget(*txn, k)) || (exists m int :: {processed[m]} 0 <= m && m <= rangeindex && kvkey(processed[m]) == k)
